@@ -10,6 +10,19 @@ CLAIMED = {
  "C02": ("property-based testing (proptest, hostile + conformant histories) against a decomposition oracle",
          "Generated search over (allowed set, history of buffers); oracle recomputes each element's wire length from its own header, requires a left-to-right decomposition with at most one final error carrying exactly the unconsumed suffix, and a silent stop only in front of a disallowed version.",
          "Header count/length fields reported by the library are taken as the element's wire length; their correctness is checked by C03-C05.", "DESIGN.md §4 C02"),
+
+ "C03": ("property-based testing (proptest) + exhaustive sub-enumerations against an independent offset-table decoder",
+         "Generated V5/V7 packets (raw-byte headers and records, counts up to the datagram limit in the thorough tier, chained, with trailing bytes or cut short) compared field by field with a hand-transcribed Cisco offset table; all 256 protocol numbers x 2 versions and every truncation point of sample packets are enumerated exhaustively in every run.",
+         "The IANA keyword table and the Cisco offsets were transcribed by hand into the harness.", "DESIGN.md §4 C03"),
+ "C04": ("property-based testing (proptest plans -> conformant V9 streams) against an independent RFC 3954 reference decoder with template-cache model",
+         "Generated conformant V9 histories (template pools, redefinitions, multi-template flowsets, options templates/data, all supported widths, padding 0..3) decoded by the library and by an independent reference decoder over the same bytes; every header, template record, record value (in the library-assigned type) and padding byte compared in both directions, cache compared with the model after every call.",
+         "Field number -> data type comes from the library's public lookup tables (pinned by the suite's snapshots); conformant envelope as stated in DESIGN §3.2.", "DESIGN.md §4 C04"),
+ "C05": ("property-based testing (proptest plans -> conformant IPFIX streams) against an independent RFC 7011 reference decoder with template-cache model",
+         "Generated conformant IPFIX histories (enterprise elements, variable-length elements in both length forms, zero-length elements, options templates with scope counts, differing record sizes) decoded by the library and by an independent reference decoder; every header, template record, flat (index, element, value) sequence, padding and the set count compared, cache compared with the model after every call.",
+         "Element -> data type comes from the library's public lookup tables; conformant envelope as stated in DESIGN §3.2 (one or more records per data set, padding shorter than the shortest record).", "DESIGN.md §4 C05"),
+ "C08": ("property-based testing (proptest) with a round-trip oracle in both directions",
+         "Generated V5/V7 packets: every element the library returns must re-export to exactly its input span; and structures built through the public fields from an independent offset-table decode must export to the original bytes, re-parse to an equal structure with no remainder, and export again identically.",
+         "Spans come from the C02 decomposition; structures for the reverse direction are built from the harness' own offset table.", "DESIGN.md §4 C08"),
 }
 NOT_YET = {}
 
